@@ -30,6 +30,13 @@ ASSUMPTIONS = ["pyref.bppp / pyref.pedersen / pyref.rfc6979 / pyref.ec are corre
                "rho != 0 for the prover, proof buffer >= 65*rounds + 64, verifier always given a scratch space object",
                "csrc/shim_C19.inc wrappers only convert representations (32-byte scalars, 33-byte ext points, SHA-256 transcript = optional tag block + prefix)"]
 
+# Sanitizer workers: every pointer this module hands to the library is a vf.lib.buf block, which in sanitizer workers is a libc-malloc block with
+# ASan red zones (VF_MALLOC_BUF).  Routing ALL of Python's allocations through the sanitizer allocator as well (PYTHONMALLOC=malloc, the driver's default)
+# adds nothing for this module but makes the pure-Python reference (big-integer curve arithmetic) 4x slower (measured: 0.23 -> 0.99 CPU-s per `honest`
+# case), so the documented opt-out of vf.main.worker_env is used.  The driver reads it when it spawns workers, i.e. after importing this module.
+import os as _os
+_os.environ.setdefault("VF_NO_PYMALLOC", "1")
+
 LARGE = 1000000
 SIZES = [1, 2, 4, 8, 16, 32, 64]
 PAIRS_ALL = [(a, b) for a in SIZES for b in SIZES]
@@ -83,6 +90,8 @@ def D(env):
     if not env.cache.get("c19_init"):
         d.vf_c19_scratch_create.restype = c_void_p
         d.vf_c19_gens_n.restype = c_size_t
+        d.vf_c19_scratch_checkpoint.restype = c_size_t
+        d.vf_c19_scratch_alloc.restype = c_void_p
         d.secp256k1_bppp_generators_create.restype = c_void_p
         d.secp256k1_bppp_generators_parse.restype = c_void_p
         env.cache["c19_init"] = True
@@ -122,10 +131,23 @@ def scratch_destroy(env, s):
     D(env).vf_c19_scratch_destroy(env.lib.ctx, s)
 
 
+def scratch_level(env, s):
+    """current allocation level (= what secp256k1_scratch_checkpoint returns)"""
+    return D(env).vf_c19_scratch_checkpoint(env.lib.ctx, s)
+
+
+def scratch_alloc(env, s, size):
+    return D(env).vf_c19_scratch_alloc(env.lib.ctx, s, c_size_t(size))         # int address or None
+
+
+def scratch_rollback(env, s, cp):
+    D(env).vf_c19_scratch_apply_checkpoint(env.lib.ctx, s, c_size_t(cp))
+
+
 def lib_commit(env, scratch, g, nv, lv, cv, mu):
     c33 = buf(33)
     r = D(env).vf_c19_commit(env.lib.ctx, scratch, c33, c_void_p(g), xbuf(vecb(nv)), c_size_t(len(nv)), xbuf(vecb(lv)), c_size_t(len(lv)),
-                             xbuf(vecb(cv)), c_size_t(len(cv)), i2b(mu))
+                             xbuf(vecb(cv)), c_size_t(len(cv)), xbuf(i2b(mu)))
     assert r != -2
     return r, c33.raw
 
@@ -135,7 +157,7 @@ def lib_prove(env, scratch, g, prefix, tagged, rho, nv, lv, cv, extra_cap=0):
     cap = 65 * rounds + 64 + extra_cap
     proof = buf(cap)
     pl = c_size_t(cap)
-    r = D(env).vf_c19_prove(env.lib.ctx, scratch, proof, byref(pl), xbuf(prefix), c_size_t(len(prefix)), c_int(1 if tagged else 0), i2b(rho), c_void_p(g),
+    r = D(env).vf_c19_prove(env.lib.ctx, scratch, proof, byref(pl), xbuf(prefix), c_size_t(len(prefix)), c_int(1 if tagged else 0), xbuf(i2b(rho)), c_void_p(g),
                             xbuf(vecb(nv)), c_size_t(len(nv)), xbuf(vecb(lv)), c_size_t(len(lv)), xbuf(vecb(cv)), c_size_t(len(cv)))
     assert r != -2
     return r, proof.raw[:min(pl.value, cap)], pl.value
@@ -143,7 +165,7 @@ def lib_prove(env, scratch, g, prefix, tagged, rho, nv, lv, cv, extra_cap=0):
 
 def lib_verify(env, scratch, g, proof, prefix, tagged, rho, g_len, cv, commit33):
     r = D(env).vf_c19_verify(env.lib.ctx, scratch, xbuf(proof), c_size_t(len(proof)), xbuf(prefix), c_size_t(len(prefix)), c_int(1 if tagged else 0),
-                             i2b(rho), c_void_p(g), c_size_t(g_len), xbuf(vecb(cv)), c_size_t(len(cv)), commit33)
+                             xbuf(i2b(rho)), c_void_p(g), c_size_t(g_len), xbuf(vecb(cv)), c_size_t(len(cv)), xbuf(commit33))
     assert r not in (-1, -2), "wrapper error %d" % r
     return r
 
@@ -252,6 +274,9 @@ def honest_case(draw):
     # verifier scratch sizes: offsets (in 8-byte units, may be negative) around 32*(rounds + |n| + |l| + log2|n|), absolute small sizes, big sizes
     case["voffs"] = draw(st.lists(st.one_of(st.integers(-6, 6), st.integers(-40, 400), st.sampled_from([-1, 0, 1])), min_size=2, max_size=5))
     case["vabs"] = draw(st.lists(st.one_of(st.integers(0, 200), st.integers(0, 20000), st.integers(0, 300000)), min_size=1, max_size=3))
+    # state on entry: the caller already holds this many bytes on the shared scratch space
+    case["pre_k"] = draw(st.sampled_from([8, 64, 128, 1000]))
+    case["pre_slack"] = draw(st.sampled_from([0, 0, 16, 64, 4096, LARGE]))
     return case
 
 
@@ -312,6 +337,48 @@ def run_honest(env, case):
             vb = lib_verify(env, s, I.g, bytes(bad), I.prefix, I.tagged, I.rho, gl, I.cv, c33)
             scratch_destroy(env, s)
             env.require(vb == 0, "altered proof accepted (scratch size %d)" % sz)
+        # the scratch space is NOT empty on entry: a caller (parent protocol) keeps live data on it and uses it for several calls.
+        # Every callee has to hand the space back at the level it found, must not touch the caller's bytes, and must answer as with a fresh space.
+        k = case.get("pre_k", 64)
+        pattern = bytes((0xA5 ^ (i * 37)) & 255 for i in range(k))
+        for total in sorted({LARGE, need + ((k + 15) // 16) * 16 + case.get("pre_slack", 0)}):
+            s = scratch_create(env, total)
+            cp0 = scratch_level(env, s)
+            mine = scratch_alloc(env, s, k)
+            env.require(mine, "scratch_alloc(%d) failed on a %d-byte scratch space" % (k, total))
+            ctypes.memmove(mine, pattern, k)
+            lvl = scratch_level(env, s)
+            env.require(lvl >= cp0 + k, "scratch level did not advance after an allocation")
+
+            def after(what):
+                now = scratch_level(env, s)
+                env.require(now == lvl, "%s left the caller's scratch space at allocation level %d, it was %d on entry (non-empty scratch, %d bytes held by the caller)"
+                            % (what, now, lvl, k), scratch_size=total)
+                env.require(ctypes.string_at(mine, k) == pattern, "%s overwrote the caller's live allocation on the shared scratch space" % what, scratch_size=total)
+
+            if total == LARGE:
+                for rep in (1, 2):
+                    r2, c33b = lib_commit(env, s, I.g, I.nv, I.lv, I.cv, mu)
+                    after("bppp_commit (call %d)" % rep)
+                    env.require(r2 == 1 and c33b == c33, "bppp_commit on a non-empty scratch space differs from the fresh-scratch result (call %d)" % rep)
+                    r2, proof2, _ = lib_prove(env, s, I.g, I.prefix, I.tagged, I.rho, I.nv, I.lv, I.cv)
+                    after("norm_product_prove (call %d)" % rep)
+                    env.require(r2 == 1, "prover fails on a non-empty scratch space (call %d)" % rep)
+                    env.require(lib_verify(env, big, I.g, proof2, I.prefix, I.tagged, I.rho, gl, I.cv, c33) == 1,
+                                "proof made on a non-empty scratch space does not verify (call %d)" % rep)
+            verdicts = []
+            for rep in (1, 2, 3):
+                verdicts.append(lib_verify(env, s, I.g, proof, I.prefix, I.tagged, I.rho, gl, I.cv, c33))
+                after("norm_product_verify (call %d)" % rep)
+                vb = lib_verify(env, s, I.g, bytes(bad), I.prefix, I.tagged, I.rho, gl, I.cv, c33)
+                after("norm_product_verify of an altered proof (call %d)" % rep)
+                env.require(vb == 0, "altered proof accepted on a non-empty scratch space (call %d)" % rep)
+            env.require(len(set(verdicts)) == 1, "verify answers %s for the same honest proof on the same non-empty scratch space" % verdicts, scratch_size=total, held=k)
+            if total == LARGE:
+                env.require(verdicts[0] == 1, "honest proof rejected on a %d-byte scratch space of which the caller holds %d bytes (accepted on a fresh one)" % (total, k))
+            scratch_rollback(env, s, cp0)
+            scratch_destroy(env, s)
+        classes.append("scratch_nonempty_on_entry")
         check_callbacks(env, "honest pipeline")
     finally:
         scratch_destroy(env, big)
@@ -643,6 +710,75 @@ def run_flips(env, case):
     return True, ["shape=%d,%d" % (gl, hl), "flips_rejected"]
 
 
+# ------------------------------------------------------------------ (c') exhaustive verifier scratch-size sweep for small shapes
+SWEEP_SHAPES = {"quick": [(1, 1), (2, 1), (1, 2), (2, 2)],
+                "thorough": [(1, 1), (2, 1), (1, 2), (2, 2), (4, 1), (1, 4), (4, 4), (8, 8), (1, 16), (16, 1)]}
+SWEEP_ABOVE = 4096
+
+
+def sweep_enum(tier, shard, nshards):
+    k = 0
+    for rep in range(1 if tier == "quick" else 2):
+        for gl, hl in SWEEP_SHAPES[tier]:
+            if k % nshards == shard:
+                yield {"gl": gl, "hl": hl, "seed": 500 * rep + 11 * gl + hl, "above": SWEEP_ABOVE}
+            k += 1
+
+
+def run_sweep(env, case):
+    """EVERY scratch size (step 1 byte) from 0 to the required amount + 4096: below the first sufficient size the verifier fails closed,
+    from the first sufficient size on it accepts the honest proof at every size (no 'holes' between two working sizes)."""
+    lib = env.lib
+    lib.reset()
+    gl, hl, seed = case["gl"], case["hl"], case["seed"]
+    sc = {"gl": gl, "hl": hl, "n": {"mode": "rand", "seed": seed, "over": []}, "l": {"mode": "rand", "seed": seed + 1, "over": []},
+          "c": {"mode": "rand", "seed": seed + 2, "over": []}, "rho": H("rho", seed) % (N - 1) + 1, "prefix": ec.sha256(b"sweep%d" % seed)[:seed % 33].hex(),
+          "tagged": bool(seed & 1), "gens": "std"}
+    live0 = live(env)
+    I = Inst(env, sc)
+    big = scratch_create(env, LARGE)
+    try:
+        r, c33 = lib_commit(env, None, I.g, I.nv, I.lv, I.cv, I.rho * I.rho % N)
+        env.require(r == 1, "bppp_commit failed")
+        r, proof, _ = lib_prove(env, None, I.g, I.prefix, I.tagged, I.rho, I.nv, I.lv, I.cv)
+        env.require(r == 1, "norm-argument prover failed")
+        env.require(lib_verify(env, big, I.g, proof, I.prefix, I.tagged, I.rho, gl, I.cv, c33) == 1, "honest proof does not verify")
+        env.require(B.verify(proof, I.absorbed, I.rho, I.pts, gl, I.cv, unext(c33)), "reference rejects the library's honest proof")
+        bad = bytearray(proof)
+        bad[-1] ^= 1
+        bad = bytes(bad)
+        # keep the argument buffers alive across the sweep (one conversion instead of one per size)
+        d = D(env)
+        a_proof, a_bad, a_pre, a_cv = xbuf(proof), xbuf(bad), xbuf(I.prefix), xbuf(vecb(I.cv))
+        rho32, tg, a_c33 = xbuf(i2b(I.rho)), c_int(1 if I.tagged else 0), xbuf(c33)
+
+        def ver(s, pb):
+            return d.vf_c19_verify(env.lib.ctx, s, pb, c_size_t(len(proof)), a_pre, c_size_t(len(I.prefix)), tg, rho32, c_void_p(I.g), c_size_t(gl),
+                                   a_cv, c_size_t(hl), a_c33)
+        need = 32 * (I.rounds + gl + hl + B.ilog2(gl))
+        first_ok = None
+        top = need + case["above"]
+        for sz in range(0, top + 1):
+            s = scratch_create(env, sz)
+            v = ver(s, a_proof)
+            vb = ver(s, a_bad) if sz % 16 == 0 else 0
+            scratch_destroy(env, s)
+            env.require(v in (0, 1), "verify returned %d (scratch size %d)" % (v, sz))
+            env.require(vb == 0, "altered proof accepted (scratch size %d)" % sz)
+            if v == 1:
+                first_ok = sz if first_ok is None else first_ok
+            elif first_ok is not None:
+                env.fail("verify rejects the honest proof with a %d-byte scratch space although it accepts it with the smaller size %d "
+                         "(and with %d bytes): a sufficient scratch size must stay sufficient" % (sz, first_ok, LARGE), shape=(gl, hl))
+        env.require(first_ok is not None, "honest proof never accepted with scratch sizes 0..%d (accepted with %d)" % (top, LARGE))
+        check_callbacks(env, "scratch sweep")
+    finally:
+        scratch_destroy(env, big)
+        I.close()
+    env.require(live(env) == live0, "allocation balance not zero")
+    return True, ["shape=%d,%d" % (gl, hl), "scratch_sweep_complete", "first_ok=need" if first_ok == need else "first_ok!=need"]
+
+
 # ------------------------------------------------------------------ (d) codec and challenge derivation
 half_st = st.tuples(st.sampled_from(["zero", "k", "k", "x", "off", "ge_p", "p_plus_on", "edge", "rand"]), st.integers(0, 1 << 30)).map(list)
 
@@ -861,12 +997,13 @@ _Q = {"quick": ["prod", "vsan"], "thorough": ["prod", "vsan"]}
 TESTS = [
     Test("honest", honest_case, run_honest, quick=420, thorough=9000, cfgs=_Q,
          must_cover=["pair=%d,%d" % p for p in PAIRS_QUICK] + ["scratch_ok", "scratch_fail", "pscratch", "pscratch_null", "n:zero", "n:edge", "commit_inf", "all_points_inf",
-                                                                "mu_free", "tagged", "untagged", "gens:rev"], max_workers=8),
+                                                                "mu_free", "tagged", "untagged", "gens:rev", "scratch_nonempty_on_entry"], max_workers=8),
     Test("strings", strings_case, run_strings, quick=900, thorough=30000, cfgs=_Q,
          must_cover=["base:lib", "base:ref", "base:solve", "accept_base", "accept_resolved", "accept_mutated", "reject:length", "reject:not_pow2", "reject:gen_count",
                      "reject:rho_zero", "reject:scalar_range", "reject:point", "reject:equation", "reject:zero_len", "s_plus_n_twin", "rho_zero_on_zero_n",
                      "inf_sign_on_all_inf", "declared_bad", "declared_pow2", "nonpow2_attack_built"] + ["mut:" + k for k in sorted(set(MUT_KINDS))], max_workers=12),
     Test("flips", flips_enum, run_flips, kind="enum", cfgs=_Q, must_cover=["flips_rejected"], max_workers=6),
+    Test("sweep", sweep_enum, run_sweep, kind="enum", cfgs={"quick": ["prod"], "thorough": ["prod", "vsan"]}, must_cover=["scratch_sweep_complete"], max_workers=2),
     Test("codec", codec_case, run_codec, quick=4000, thorough=60000, cfgs=_Q, must_cover=["sign>3", "inf_sign_set", "inf_ok", "both_valid", "some_invalid", "x:ge_p", "x:off",
                                                                                            "x:p_plus_on"], max_workers=2),
     Test("challenge", challenge_case, run_challenge, quick=1500, thorough=20000, cfgs=_Q, must_cover=["tagged", "plain", "idx0", "idx>0"], max_workers=1),
